@@ -195,6 +195,13 @@ def run_compact(spec):
     if ph is None:
         return out
     prim, scell = ph.primitive, ph.supercell
+    if spec.get("reorder") and len(prim) >= 2:
+        # a primitive cell whose atoms were put into a requested order (p2s_map not ascending)
+        from phonopy.structure.cells import Primitive
+
+        order = rng_from(spec["key"], 17).permutation(len(prim))
+        prim = Primitive(scell, prim.primitive_matrix, positions_to_reorder=prim.scaled_positions[order])
+        spec = dict(spec, via_api=False)
     n = len(scell)
     p2s = np.array(prim.p2s_map)
     rng = rng_from(spec["key"])
@@ -214,7 +221,7 @@ def run_compact(spec):
             comp = full[p2s]
         comp = np.array(comp, order="C")
     sc = np.abs(full).max()
-    classes = [spec["array"], "level:%d" % spec["level"], _mult_class(ph)]
+    classes = [spec["array"], "level:%d" % spec["level"], _mult_class(ph)] + (["reordered_primitive"] if spec.get("reorder") and len(prim) >= 2 else [])
     # P5: expansion / compression
     e = np.abs(compact_fc_to_full_fc(prim, comp) - full).max() / sc
     if e > 1e-12:
@@ -269,6 +276,7 @@ def compact_specs(draw, tier):
     b = draw(base(tier))
     b["array"] = draw(st.sampled_from(["periodic", "periodic", "symmetric", "drift_free", "perm_only"]))
     b["via_api"] = draw(st.booleans())
+    b["reorder"] = draw(st.sampled_from([False, False, True]))
     return b
 
 
